@@ -105,6 +105,9 @@ type replayInput struct {
 }
 
 func replay(kind string, input json.RawMessage) (bool, string) {
+	if strings.HasPrefix(kind, "sub:") {
+		return replaySub(kind, input)
+	}
 	var in replayInput
 	if err := json.Unmarshal(input, &in); err != nil {
 		return false, "bad replay input: " + err.Error()
@@ -173,6 +176,101 @@ func runProp(r *chk.Run, prop string) {
 	if prop == "C05" {
 		racePass(r, jobs)
 	}
+	scaleHalf(r, prop)
+}
+
+// scaleHalf runs the native engine's part of the property (package e2,
+// scalee1.go) as a sub-run and files what it found under this run.
+func scaleHalf(r *chk.Run, prop string) {
+	bin := os.Getenv("VERIF_SCALE_BIN")
+	if bin == "" || r.Violated() || prop == "C06" {
+		return
+	}
+	f, err := os.CreateTemp("", "verif-sub-*.json")
+	if err != nil {
+		chk.Fatalf("scale half: %v", err)
+	}
+	f.Close()
+	defer os.Remove(f.Name())
+	tier := "quick"
+	if r.Thorough() {
+		tier = "thorough"
+	}
+	cmd := exec.Command(bin, prop)
+	cmd.Env = append(os.Environ(), "VERIF_SUB="+f.Name(), "VERIF_TIER="+tier)
+	out, err := cmd.CombinedOutput()
+	if err != nil {
+		chk.Fatalf("scale half: the native engine failed: %v\n%s", err, out)
+	}
+	b, err := os.ReadFile(f.Name())
+	var res chk.SubResult
+	if err != nil || json.Unmarshal(b, &res) != nil {
+		chk.Fatalf("scale half: unreadable result of the native engine\n%s", out)
+	}
+	if len(res.Unconfirmed) > 0 {
+		chk.Fatalf("scale half: counterexample does not reproduce on re-execution: %v", res.Unconfirmed)
+	}
+	num := func(k string) int64 {
+		if v, ok := res.Coverage[k].(float64); ok {
+			return int64(v)
+		}
+		return 0
+	}
+	r.Eval(num("evaluations"))
+	r.DistinctN(num("distinct_nontrivial"))
+	cov := map[string]interface{}{}
+	for k, v := range res.Coverage {
+		switch k {
+		case "samples", "states", "transitions", "evaluations", "distinct_nontrivial", "traces_validated_against_impl":
+		default:
+			cov[k] = v
+		}
+	}
+	r.Set("scale_half_native", cov)
+	if ex, _ := res.Coverage["exhaustive"].(bool); !ex {
+		r.SetExhaustive(false)
+	}
+	for _, a := range res.Assumptions {
+		r.Assume("scale half: " + a)
+	}
+	for _, v := range res.Violations {
+		r.Report(chk.Violation{Key: "scale/" + v.Key, What: "[scale half, native engine] " + v.What, Kind: "sub:" + v.Kind, Replay: v.Input})
+	}
+}
+
+func replaySub(kind string, input json.RawMessage) (bool, string) {
+	bin := os.Getenv("VERIF_SCALE_BIN")
+	if bin == "" {
+		chk.Fatalf("replay of a scale-half counterexample needs the native engine (run it through run.sh)")
+	}
+	f, err := os.CreateTemp("", "verif-subreplay-*.json")
+	if err != nil {
+		chk.Fatalf("%v", err)
+	}
+	defer os.Remove(f.Name())
+	doc := map[string]interface{}{"property": chk.ReplayProperty, "kind": strings.TrimPrefix(kind, "sub:"), "key": "", "what": "", "input": input}
+	b, _ := json.Marshal(doc)
+	f.Write(b)
+	f.Close()
+	cmd := exec.Command(bin, "replay", f.Name())
+	cmd.Env = append(os.Environ(), "VERIF_SUB=")
+	out, err := cmd.CombinedOutput()
+	// (the verdict line is printed by this process, with the path of the real replay file)
+	var keep []string
+	for _, l := range strings.Split(string(out), "\n") {
+		if !strings.HasPrefix(l, "VIOLATION property=") {
+			keep = append(keep, l)
+		}
+	}
+	out = []byte(strings.Join(keep, "\n"))
+	if err == nil {
+		return false, string(out)
+	}
+	if ee, ok := err.(*exec.ExitError); ok && ee.ExitCode() == 1 {
+		return true, string(out)
+	}
+	chk.Fatalf("replay: the native engine failed: %v\n%s", err, out)
+	return false, ""
 }
 
 func jsonOf(v interface{}) string { b, _ := json.Marshal(v); return string(b) }
